@@ -25,6 +25,13 @@ def blocks_all(rng, tier):
     for how in ("raw", "own"):
         blocks.append(["mk opath 0 0", "reg %s 10" % how, "final"])
         blocks.append(["mk opath 0 0", "reg %s 10" % how, "raise 2", "unreg", "final"])
+    # two registrations (two signals) share one open file description through dup(): taking one of them away
+    # must leave the other one's wake-up non-blocking, also on a full descriptor
+    for k in KINDS:
+        for how in ("own", "raw"):
+            for full in (0, 1):
+                blocks.append(["mk %s 0 %d" % (k, full), "reg %s 10" % how, "reg2 %s 12" % how, "raise 2", "raise2 2", "unreg", "raise2 3", "final"])
+                blocks.append(["mk %s 0 %d" % (k, full), "reg %s 10" % how, "reg2 %s 12" % how, "unreg2", "raise 3", "final"])
     return blocks
 
 
@@ -46,6 +53,7 @@ def run_blocks(blocks):
 def monitor(block, impl):
     probs = []
     registered, closed, closes = False, False, 0
+    shared = any(op.startswith("reg2") for op in block)
     since_drain = 0
     was_full = False
     for l in impl:
@@ -61,7 +69,7 @@ def monitor(block, impl):
             probs.append("a delivery makes a call that can block on the self-pipe: `%s`" % t)
         if t == "ok":
             registered = True
-        if t.startswith("raised") and registered and not closed:
+        if t.startswith("raised") and registered and (not closed or shared):
             f = dict(x.split("=") for x in t.split()[2:]) if "=" in t else {}
             n = int(t.split()[1])
             since_drain += n
@@ -116,7 +124,7 @@ class C13(PropCheck):
                 if probs:
                     failures.append({"kind": "violation", "key": "C13:" + core.digest([b[0], probs[0][:50]]),
                                      "what": "ops `%s`: %s" % ("; ".join(b), probs[0]), "payload": payload})
-                elif i != m:
+                elif i != m and not any(op.startswith("reg2") for op in b):
                     d = core.first_diff(m, i)
                     failures.append({"kind": "disagreement", "key": "C13:diff:" + b[0],
                                      "what": "ops `%s`: model `%s` vs implementation `%s`" % ("; ".join(b), d[1], d[2]), "payload": payload})
